@@ -385,6 +385,12 @@ func c14Setup(cs *C14Case, scratch string, tag string) (*c14Run, Res) {
 	src := Source(cs.Root)
 	p := ParseLoc(x.eng, src, x.rootAbs, 1)
 	if p.T == nil {
+		// does the same root parse once its include tags are taken out? Then an
+		// include tag with a well-formed argument expression was rejected.
+		x.roots[0].tree = cs.Root
+		if q := ParseLoc(x.eng, Source(stripIncludes(cs.Root)), x.rootAbs, 1); q.T != nil && p.Err.Panic == "" {
+			p.Err.Stage = "include-rejected"
+		}
 		return nil, p.Err
 	}
 	x.tpl = p.T
@@ -641,27 +647,28 @@ func (x *c14Run) whichSource(p string) string {
 	return "cached source"
 }
 
-func (x *c14Run) failsWithoutIncludes() bool {
-	var strip func(ns []*TNode) []*TNode
-	strip = func(ns []*TNode) []*TNode {
-		var out []*TNode
-		for _, n := range ns {
-			if n.K == "tag" && strings.HasPrefix(n.S, "include ") {
-				continue
-			}
-			c := *n
-			c.C = strip(n.C)
-			c.Cl = nil
-			for _, cl := range n.Cl {
-				cc := *cl
-				cc.C = strip(cl.C)
-				c.Cl = append(c.Cl, &cc)
-			}
-			out = append(out, &c)
+// stripIncludes returns the tree without its include tags.
+func stripIncludes(ns []*TNode) []*TNode {
+	var out []*TNode
+	for _, n := range ns {
+		if n.K == "tag" && strings.HasPrefix(n.S, "include ") {
+			continue
 		}
-		return out
+		c := *n
+		c.C = stripIncludes(n.C)
+		c.Cl = nil
+		for _, cl := range n.Cl {
+			cc := *cl
+			cc.C = stripIncludes(cl.C)
+			c.Cl = append(c.Cl, &cc)
+		}
+		out = append(out, &c)
 	}
-	p := ParseLoc(x.eng, Source(strip(x.roots[x.cur].tree)), x.rootAbs, 1)
+	return out
+}
+
+func (x *c14Run) failsWithoutIncludes() bool {
+	p := ParseLoc(x.eng, Source(stripIncludes(x.roots[x.cur].tree)), x.rootAbs, 1)
 	if p.T == nil {
 		return true
 	}
@@ -759,6 +766,11 @@ func c14Find(c *Ctx, cs *C14Case, scratch, tag string, out *CaseOut, wantSig str
 		}
 		if pres.Panic != "" {
 			out.Discarded = true
+		}
+		if pres.Stage == "include-rejected" && (wantSig == "" || wantSig == "include-argument-accepted") {
+			os.RemoveAll(filepath.Join(scratch, "fsroot", fmt.Sprintf("p%d", os.Getpid()), tag))
+			return []c14Fail{{clause: "include-argument-accepted", sig: "include-argument-accepted", j: -1,
+				detail: fmt.Sprintf("the root template is rejected (%s) although it parses once its include tags are removed: an include tag with a well-formed argument expression is not accepted", pres.Err)}}
 		}
 		os.RemoveAll(filepath.Join(scratch, "fsroot", fmt.Sprintf("p%d", os.Getpid()), tag))
 		return nil
